@@ -305,7 +305,34 @@ func mutate(c *vh.Ctx, f []byte) ([]byte, string) {
 	}
 }
 
+// capOracle: the size cap itself, at every decode entry point, on frames of cap-4 .. cap+1 bytes of
+// length field. Oracle only (a 16 MiB hex case line per frame would dwarf the case file; the model
+// side of the cap is the bridged constant and the thorough tier's cap-sized case).
+func capOracle(c *vh.Ctx) {
+	cap := hsms.VerifFrameCap()
+	for _, l := range []int{cap - 4, cap - 3, cap - 1, cap, cap + 1} {
+		frame := make([]byte, 4+l)
+		frame[0], frame[1], frame[2], frame[3] = byte(l>>24), byte(l>>16), byte(l>>8), byte(l)
+		frame[6], frame[7] = 0x81, 0x01 // S1F1 W, PType 0, SType 0
+		frame[13] = 1
+		want := l <= cap
+		tag := fmt.Sprintf("cap-edge length-field=%d (cap=%d)", l, cap)
+		_, m := renderGuarded(func() (hsms.Message, error) { return hsms.DecodeHSMSMessage(frame) })
+		_, mp := renderGuarded(func() (hsms.Message, error) { return hsms.DecodeHSMSPayload(frame[4:]) })
+		own := append([]byte(nil), frame[4:]...)
+		_, mo := renderGuarded(func() (hsms.Message, error) { return hsms.DecodeOwnedHSMSPayload(own) })
+		c.Count(fmt.Sprintf("cap-edge/accepted=%v", m != nil))
+		if (m != nil) != want {
+			c.Fail(fmt.Sprintf("DecodeHSMSMessage acceptance (%v) at the size cap differs from well-formedness (%v)", m != nil, want), tag)
+		}
+		if (mp != nil) != want || (mo != nil) != want {
+			c.Fail(fmt.Sprintf("payload decode acceptance (%v/%v) at the size cap differs from well-formedness (%v)", mp != nil, mo != nil, want), tag)
+		}
+	}
+}
+
 func decodePass(c *vh.Ctx) {
+	capOracle(c)
 	r := c.Rng
 	// corpus: lengths 0..15, every SType x PType in {0,1,255}, control frames with a body
 	for n := 0; n <= 15; n++ {
